@@ -811,6 +811,23 @@ def param_alternatives(fn: ast.AST, pname: str, at: ast.AST):
 
 
 def alternatives(fn: ast.AST, e: ast.AST, conds: List[Tuple[ast.AST, bool]], depth: int = 5, at: Optional[ast.AST] = None) -> List[Tuple[ast.AST, List[Tuple[ast.AST, bool]]]]:
+    """`_alternatives`, with the expressions that substitution built brought into canonical expression form (`[] + x` is `x`,
+    `(lambda a: f(a))(y)` is `f(y)`, ...) — the same form the functions themselves are in."""
+    import copy as _c
+    from ..canon import _ExprNorm
+
+    out = []
+    for v, c in _alternatives(fn, e, conds, depth, at):
+        if v is not e:
+            try:
+                v = ast.fix_missing_locations(_ExprNorm().visit(_c.deepcopy(v)))
+            except Exception:  # noqa: BLE001 — normalisation is an optimisation of the comparison, never a requirement
+                pass
+        out.append((v, c))
+    return out
+
+
+def _alternatives(fn: ast.AST, e: ast.AST, conds: List[Tuple[ast.AST, bool]], depth: int = 5, at: Optional[ast.AST] = None) -> List[Tuple[ast.AST, List[Tuple[ast.AST, bool]]]]:
     """The values `e` can take at a use governed by `conds`, as [(expression over parameters, conditions)]:
     singly-bound locals are replaced by their definition; a local bound on several branches (the canonical
     form of a conditional expression, or of per-branch temporaries) gives one alternative per definition that
@@ -838,7 +855,7 @@ def alternatives(fn: ast.AST, e: ast.AST, conds: List[Tuple[ast.AST, bool]], dep
             out = []
             for val, pol in ((n.body, True), (n.orelse, False)):
                 e2 = _replace(e, n, val)
-                out += alternatives(fn, e2, list(conds) + [(n.test, pol)], depth - 1, at)
+                out += _alternatives(fn, e2, list(conds) + [(n.test, pol)], depth - 1, at)
             return out
         if isinstance(n, ast.Name) and isinstance(n.ctx, ast.Load) and n.id not in env and n.id not in params and id(n) not in inner_scope and not n.id.startswith("__alt"):
             defs = None
@@ -864,15 +881,15 @@ def alternatives(fn: ast.AST, e: ast.AST, conds: List[Tuple[ast.AST, bool]], dep
                         continue  # re-binding in terms of itself (x = f(x)): needs the flow-sensitive path
                     merged = list(conds) + [c for c in cds if (id(c[0]), c[1]) not in {(id(t), p) for t, p in conds}]
                     if not flow:
-                        out += alternatives(fn, _replace(e, n, v), merged, depth - 1, st)
+                        out += _alternatives(fn, _replace(e, n, v), merged, depth - 1, st)
                         continue
                     # the value is resolved where it was computed (its own locals as they reach that statement); the other
                     # locals of `e` are resolved where `e` is used
                     _alt_counter[0] += 1
                     ph = ast.Name(f"__alt{_alt_counter[0]}", ast.Load())
                     e2 = _replace(e, n, ph)
-                    for v2, c2 in alternatives(fn, v, merged, depth - 1, st):
-                        for v3, c3 in alternatives(fn, e2, c2, depth - 1, at):
+                    for v2, c2 in _alternatives(fn, v, merged, depth - 1, st):
+                        for v3, c3 in _alternatives(fn, e2, c2, depth - 1, at):
                             out.append((_subst_placeholder(v3, ph.id, v2), c3))
                 if out:
                     return out
